@@ -87,7 +87,8 @@ Definition impls_of (S : schema) (i : name) : list name :=
 
 (** ** Executable document *)
 Inductive cond := CLit (b : bool) | CVar (v : name).           (* the [if:] argument *)
-Inductive directive := DSkip (c : cond) | DInclude (c : cond) | DOther.
+Inductive directive := DSkip (c : cond) (dp vp : pos) | DInclude (c : cond) (dp vp : pos) | DOther.
+   (* [dp] is the directive's Position(), [vp] the Position() of its [if:] value *)
 
 Inductive selection :=
 | SField (alias : option name) (n : name) (p : pos) (dirs : list directive) (sub : list selection)
@@ -108,8 +109,10 @@ Definition sel_dirs (s : selection) : list directive :=
 (** a field node as the executor holds it (a pointer to ast.Field): name, Position(), sub-selections *)
 Record fnode := { fn_name : name; fn_pos : pos; fn_sub : list selection }.
 
-(** coerced variable values, as far as @skip/@include look at them *)
-Definition env := list (name * bool).
+(** coerced variable values, as far as @skip/@include look at them: [Some b] a boolean, [None]
+    an explicit null (possible for a nullable variable with a default); a variable that is not
+    listed has no value *)
+Definition env := list (name * option bool).
 
 (** ** Resolver-outcome tree *)
 Inductive outcome :=
@@ -284,3 +287,10 @@ Definition is_nil (o : outcome) : bool :=
 Definition n_typename : name := [95;95;116;121;112;101;110;97;109;101]%N.      (* __typename *)
 Definition n_schema : name := [95;95;115;99;104;101;109;97]%N.                  (* __schema *)
 Definition n_type : name := [95;95;116;121;112;101]%N.                          (* __type *)
+
+(** ** A whole executable document: several operations sharing the fragment definitions *)
+Record operation := { o_name : option name; o_kind : opkind; o_pos : pos; o_sels : list selection }.
+Record request_doc := { r_ops : list operation; r_frags : list fragdef }.
+(** the document as one operation sees it *)
+Definition doc_of (R : request_doc) (o : operation) : document :=
+  {| op_kind := o_kind o; op_pos := o_pos o; op_sels := o_sels o; frags := r_frags R |}.
